@@ -597,7 +597,7 @@ impl<'s> Gen<'s> {
                         Term::All => Keep::Prefix(mm),
                         _ => Keep::Origins(vec![mm, mm + 500]),
                     };
-                    if c.src == Src::ConIterVec || (r.chance(1, 4) && self.find(Src::ConIterVec, &c.shape).is_some()) {
+                    if c.src == Src::ConIterVec || (r.chance(1, 2) && self.find(Src::ConIterVec, &c.shape).is_some()) {
                         // a concurrent iterator that was largely consumed before it became a Par: what was consumed
                         // before the run is not progress of the run
                         c.src = Src::ConIterVec;
@@ -608,7 +608,7 @@ impl<'s> Gen<'s> {
                             Term::FirstIdx => Term::First,
                             t => t,
                         };
-                        c.pre_consumed = r.range(8_000, 20_000);
+                        c.pre_consumed = r.range(c.len / 2, 2 * c.len);
                         c.len += c.pre_consumed;
                         let mm2 = mm + c.pre_consumed as u64;
                         c.pred = match c.term {
